@@ -10,8 +10,9 @@ const KEYS = ["a", "b", "c", "t", "kind", "x"];
 const HOSTILE_KEYS = ["__proto__", "constructor", "toString", "prototype", "hasOwnProperty", "valueOf", "length", "size", "0", "1", "a-b", ""];
 const STRS = ["", "a", "b", "ab", "x1", "true", "12", "1.5", "ab12", "zza1zz", "é", "a\nb", "hello world", "__proto__", "constructor"];
 const NUMS = [0, 1, -1, 2, 3, 4, 6, 1.5, 12, 100, -0, NaN, 1e21, Infinity];
-const FMTS_S = ["fa", "fb", "fab"];
-const FMTS_N = ["n2", "n3"];
+// ("f2" is registered BOTH as a string format and as a number format: the two registries are separate name spaces)
+const FMTS_S = ["fa", "fb", "fab", "f2"];
+const FMTS_N = ["n2", "n3", "f2"];
 
 function pickKey(rng) { return rng.chance(1, 10) ? rng.pick(HOSTILE_KEYS) : rng.pick(KEYS); }
 
@@ -317,6 +318,8 @@ export function gen(rng, params, mode) {
 export function registerFormats(cg) {
   for (const sub of ["a", "b", "ab"]) cg.registerStringFormatter("f" + sub, (s) => s.includes(sub));
   for (const k of [2, 3]) cg.registerNumberFormatter("n" + k, (n) => Number.isInteger(n) && Math.abs(n) < 1e15 && n % k === 0);
+  cg.registerStringFormatter("f2", (s) => s.includes("2"));
+  cg.registerNumberFormatter("f2", (n) => Number.isInteger(n) && Math.abs(n) < 1e15 && n % 2 === 0);
 }
 function encErr(e) {
   if ("isUnionError" in e) return [A("uerr"), e.path.slice(), encOut(e.received), e.errors.map(encErr)];
